@@ -3,6 +3,7 @@ package keeper
 import (
 	"context"
 	"fmt"
+	"sort"
 
 	"github.com/cosmos/cosmos-sdk/codec"
 	sdk "github.com/cosmos/cosmos-sdk/types"
@@ -94,9 +95,13 @@ func (sudo Sudoers) String() string {
 }
 
 func (sudo Sudoers) ToPb() sudotypes.Sudoers {
+	// "ToSlice" iterates a Go map. The result is persisted, so it must not depend
+	// on the iteration order: every node has to write the same bytes.
+	contracts := sudo.Contracts.ToSlice()
+	sort.Strings(contracts)
 	return sudotypes.Sudoers{
 		Root:      sudo.Root,
-		Contracts: sudo.Contracts.ToSlice(),
+		Contracts: contracts,
 	}
 }
 
